@@ -459,6 +459,23 @@ let rec seq start = function
 | O -> []
 | S len0 -> start :: (seq (S start) len0)
 
+module Z =
+ struct
+  (** val eqb : z -> z -> bool **)
+
+  let eqb x y =
+    match x with
+    | Z0 -> (match y with
+             | Z0 -> true
+             | _ -> false)
+    | Zpos p -> (match y with
+                 | Zpos q -> Pos.eqb p q
+                 | _ -> false)
+    | Zneg p -> (match y with
+                 | Zneg q -> Pos.eqb p q
+                 | _ -> false)
+ end
+
 type ascii =
 | Ascii of bool * bool * bool * bool * bool * bool * bool * bool
 
@@ -4092,3 +4109,322 @@ let chk_C11_fn f root =
 
 let chk_C11 p o =
   forallb2 chk_C11_fn (functions_of p) o.o_fns
+
+type outcome =
+| Registers of ginstr
+| Reports of err
+
+(** val registered : outcome list -> ginstr list **)
+
+let registered l =
+  flat_map (fun o -> match o with
+                     | Registers g -> g :: []
+                     | Reports _ -> []) l
+
+(** val types_of : ginstr list -> (string * sem_ty) list **)
+
+let types_of l =
+  flat_map (fun g ->
+    match g with
+    | GTypes t -> ((type_name t), t) :: []
+    | _ -> []) l
+
+(** val consts_of : ginstr list -> (string * const_sem) list **)
+
+let consts_of l =
+  flat_map (fun g -> match g with
+                     | GConst c -> (c.c_name, c) :: []
+                     | _ -> []) l
+
+(** val funcs_of : ginstr list -> (string * func_sem) list **)
+
+let funcs_of l =
+  flat_map (fun g ->
+    match g with
+    | GFnDecl (n0, ps, r) ->
+      (n0, { f_name = n0; f_ty = r; f_params = (map snd ps) }) :: []
+    | _ -> []) l
+
+(** val pass1 : string list -> program -> outcome list **)
+
+let rec pass1 seen = function
+| [] -> []
+| t :: p' ->
+  (match t with
+   | TStructDecl (n0, a) ->
+     if smem n0.iname seen
+     then (Reports { e_kind = ETypeAlreadyExist; e_val = (Some n0.iname);
+            e_loc = (iloc n0) }) :: (pass1 seen p')
+     else (Registers (GTypes
+            (struct_of_decl n0 a))) :: (pass1 (n0.iname :: seen) p')
+   | _ -> pass1 seen p')
+
+(** val spec_cval : cval -> cval_sem **)
+
+let spec_cval = function
+| CConst n0 -> CCs n0.iname
+| CVal v -> CVs v
+
+(** val spec_const : ident -> ast_ty -> cexpr -> const_sem **)
+
+let spec_const name ty v =
+  { c_name = name.iname; c_ty = (sem_of_ty ty); c_head =
+    (spec_cval v.ce_head); c_rest =
+    (map (fun l -> ((fst l), (spec_cval (snd l)))) v.ce_rest) }
+
+(** val spec_fn_instr : fn_decl -> ginstr **)
+
+let spec_fn_instr f =
+  GFnDecl (f.fn_name.iname,
+    (map (fun q -> ((fst q).iname, (sem_of_ty (snd q)))) f.fn_params),
+    (sem_of_ty f.fn_result))
+
+(** val missing_const : string list -> (binop * cval) list -> ident option **)
+
+let rec missing_const cs = function
+| [] -> None
+| p :: l' ->
+  let (_, c0) = p in
+  (match c0 with
+   | CConst c -> if smem c.iname cs then missing_const cs l' else Some c
+   | CVal _ -> None)
+
+(** val bad_param :
+    (sem_ty -> bool) -> (ident * ast_ty) list -> ident option **)
+
+let rec bad_param tok = function
+| [] -> None
+| p :: ps' ->
+  let (x, t) = p in if tok (sem_of_ty t) then bad_param tok ps' else Some x
+
+(** val const_outcome :
+    (sem_ty -> bool) -> string list -> ident -> ast_ty -> cexpr -> outcome **)
+
+let const_outcome tok cs n0 ty v =
+  if smem n0.iname cs
+  then Reports { e_kind = EConstantAlreadyExist; e_val = (Some n0.iname);
+         e_loc = (iloc n0) }
+  else (match missing_const cs v.ce_rest with
+        | Some c ->
+          Reports { e_kind = EConstantNotFound; e_val = (Some c.iname);
+            e_loc = (iloc c) }
+        | None ->
+          if tok (sem_of_ty ty)
+          then Registers (GConst (spec_const n0 ty v))
+          else Reports { e_kind = ETypeNotFound; e_val = (Some n0.iname);
+                 e_loc = (iloc n0) })
+
+(** val fn_outcome : (sem_ty -> bool) -> string list -> fn_decl -> outcome **)
+
+let fn_outcome tok fs f =
+  let n0 = f.fn_name in
+  if smem n0.iname fs
+  then Reports { e_kind = EFunctionAlreadyExist; e_val = (Some n0.iname);
+         e_loc = (iloc n0) }
+  else if tok (sem_of_ty f.fn_result)
+       then (match bad_param tok f.fn_params with
+             | Some x ->
+               Reports { e_kind = ETypeNotFound; e_val = (Some x.iname);
+                 e_loc = (iloc n0) }
+             | None -> Registers (spec_fn_instr f))
+       else Reports { e_kind = ETypeNotFound; e_val = (Some n0.iname);
+              e_loc = (iloc n0) }
+
+(** val is_reg : outcome -> bool **)
+
+let is_reg = function
+| Registers _ -> true
+| Reports _ -> false
+
+(** val pass2 :
+    (sem_ty -> bool) -> string list -> string list -> program -> outcome list **)
+
+let rec pass2 tok cs fs = function
+| [] -> []
+| t :: p' ->
+  (match t with
+   | TConst (n0, ty, v) ->
+     let o = const_outcome tok cs n0 ty v in
+     o :: (pass2 tok (if is_reg o then n0.iname :: cs else cs) fs p')
+   | TFn f ->
+     let o = fn_outcome tok fs f in
+     o :: (pass2 tok cs (if is_reg o then f.fn_name.iname :: fs else fs) p')
+   | _ -> pass2 tok cs fs p')
+
+(** val spec_pass1 : program -> outcome list **)
+
+let spec_pass1 p =
+  pass1 [] p
+
+(** val spec_types : program -> (string * sem_ty) list **)
+
+let spec_types p =
+  types_of (registered (spec_pass1 p))
+
+(** val type_ok : (string * sem_ty) list -> sem_ty -> bool **)
+
+let type_ok t t0 =
+  (||) (is_prim t0) (amem (type_name t0) t)
+
+(** val spec_pass2 : program -> outcome list **)
+
+let spec_pass2 p =
+  pass2 (type_ok (spec_types p)) [] [] p
+
+(** val spec_consts : program -> (string * const_sem) list **)
+
+let spec_consts p =
+  consts_of (registered (spec_pass2 p))
+
+(** val spec_funcs : program -> (string * func_sem) list **)
+
+let spec_funcs p =
+  funcs_of (registered (spec_pass2 p))
+
+(** val spec_gstack : program -> ginstr list **)
+
+let spec_gstack p =
+  app (registered (spec_pass1 p)) (registered (spec_pass2 p))
+
+(** val spec_fns : program -> fn_decl list **)
+
+let spec_fns p =
+  flat_map (fun t -> match t with
+                     | TFn f -> f :: []
+                     | _ -> []) p
+
+(** val list_eqb : ('a1 -> 'a1 -> bool) -> 'a1 list -> 'a1 list -> bool **)
+
+let rec list_eqb eqb2 l l' =
+  match l with
+  | [] -> (match l' with
+           | [] -> true
+           | _ :: _ -> false)
+  | a :: r ->
+    (match l' with
+     | [] -> false
+     | a' :: r' -> (&&) (eqb2 a a') (list_eqb eqb2 r r'))
+
+(** val binop_eqb0 : binop -> binop -> bool **)
+
+let binop_eqb0 a b =
+  match a with
+  | OPlus -> (match b with
+              | OPlus -> true
+              | _ -> false)
+  | OMinus -> (match b with
+               | OMinus -> true
+               | _ -> false)
+  | OMultiply -> (match b with
+                  | OMultiply -> true
+                  | _ -> false)
+  | ODivide -> (match b with
+                | ODivide -> true
+                | _ -> false)
+  | OShiftLeft -> (match b with
+                   | OShiftLeft -> true
+                   | _ -> false)
+  | OShiftRight -> (match b with
+                    | OShiftRight -> true
+                    | _ -> false)
+  | OAnd -> (match b with
+             | OAnd -> true
+             | _ -> false)
+  | OOr -> (match b with
+            | OOr -> true
+            | _ -> false)
+  | OXor -> (match b with
+             | OXor -> true
+             | _ -> false)
+  | OEq -> (match b with
+            | OEq -> true
+            | _ -> false)
+  | ONotEq -> (match b with
+               | ONotEq -> true
+               | _ -> false)
+  | OGreat -> (match b with
+               | OGreat -> true
+               | _ -> false)
+  | OLess -> (match b with
+              | OLess -> true
+              | _ -> false)
+  | OGreatEq -> (match b with
+                 | OGreatEq -> true
+                 | _ -> false)
+  | OLessEq -> (match b with
+                | OLessEq -> true
+                | _ -> false)
+
+(** val prim_val_eqb : prim_val -> prim_val -> bool **)
+
+let prim_val_eqb a b =
+  (&&) (prim_ty_eqb a.pv_ty b.pv_ty) (Z.eqb a.pv_bits b.pv_bits)
+
+(** val cval_sem_eqb : cval_sem -> cval_sem -> bool **)
+
+let cval_sem_eqb a b =
+  match a with
+  | CCs x -> (match b with
+              | CCs y -> eqb1 x y
+              | CVs _ -> false)
+  | CVs v -> (match b with
+              | CCs _ -> false
+              | CVs w -> prim_val_eqb v w)
+
+(** val const_sem_eqb : const_sem -> const_sem -> bool **)
+
+let const_sem_eqb a b =
+  (&&)
+    ((&&) ((&&) (eqb1 a.c_name b.c_name) (sem_ty_eqb a.c_ty b.c_ty))
+      (cval_sem_eqb a.c_head b.c_head))
+    (list_eqb (fun x y ->
+      (&&) (binop_eqb0 (fst x) (fst y)) (cval_sem_eqb (snd x) (snd y)))
+      a.c_rest b.c_rest)
+
+(** val func_sem_eqb : func_sem -> func_sem -> bool **)
+
+let func_sem_eqb a b =
+  (&&) ((&&) (eqb1 a.f_name b.f_name) (sem_ty_eqb a.f_ty b.f_ty))
+    (list_eqb sem_ty_eqb a.f_params b.f_params)
+
+(** val ginstr_eqb : ginstr -> ginstr -> bool **)
+
+let ginstr_eqb a b =
+  match a with
+  | GTypes t -> (match b with
+                 | GTypes u -> sem_ty_eqb t u
+                 | _ -> false)
+  | GConst c -> (match b with
+                 | GConst d -> const_sem_eqb c d
+                 | _ -> false)
+  | GFnDecl (n0, ps, r) ->
+    (match b with
+     | GFnDecl (m0, qs, s) ->
+       (&&)
+         ((&&) (eqb1 n0 m0)
+           (list_eqb (fun x y ->
+             (&&) (eqb1 (fst x) (fst y)) (sem_ty_eqb (snd x) (snd y))) ps qs))
+         (sem_ty_eqb r s)
+     | _ -> false)
+
+(** val table_eqb :
+    ('a1 -> 'a1 -> bool) -> (string * 'a1) list -> (string * 'a1) list -> bool **)
+
+let table_eqb veqb spec out =
+  (&&) (Nat.eqb (length out) (length spec))
+    (forallb (fun kv ->
+      match alookup (fst kv) out with
+      | Some v -> veqb (snd kv) v
+      | None -> false) spec)
+
+(** val chk_C15 : program -> output -> bool **)
+
+let chk_C15 p o =
+  (&&)
+    ((&&)
+      ((&&)
+        ((&&) (table_eqb sem_ty_eqb (spec_types p) o.o_globals.g_types)
+          (table_eqb const_sem_eqb (spec_consts p) o.o_globals.g_consts))
+        (table_eqb func_sem_eqb (spec_funcs p) o.o_globals.g_funcs))
+      (list_eqb ginstr_eqb (spec_gstack p) o.o_gstack))
+    (Nat.eqb (length o.o_fns) (length (spec_fns p)))
